@@ -1,9 +1,15 @@
 import Hannibal.Props.C08
 import Hannibal.Generated.Wiring
+import Hannibal.Generated.SysFacts
 /- C08 for the wiring extracted from today's source. -/
 namespace Hannibal
 
 theorem wellWired08_current : WellWired08 Wiring.current := by decide
+
+/-- the registry model is written for code of this shape: lookup, spawn and insert of `from_registry` under one
+    write guard, `register` replacing only a stopped entry, `replace` / `unregister` returning the previous entry,
+    `try_from_registry` handing out only a running one (read off the source on every run) -/
+theorem shape08_current : SysFacts.current.ok08 = true := by decide
 
 theorem C08_current (ls : List RLabel) (s : RegSt) (hr : rrun Wiring.current RegSt.init ls = some s) :
     monC08.ok ls = true :=
